@@ -38,8 +38,8 @@ type crashOp struct {
 
 func (o crashOp) String() string {
 	switch o.Kind {
-	case "Insert":
-		return fmt.Sprintf("Insert(%q, %d docs)", o.Coll, len(o.Docs))
+	case "Insert", "InsertBig":
+		return fmt.Sprintf("%s(%q, %d docs)", o.Kind, o.Coll, len(o.Docs))
 	case "UpdateById", "DeleteById", "ReplaceById":
 		return fmt.Sprintf("%s(%q, %s, %s=%d)", o.Kind, o.Coll, short(o.ID), o.Field, o.Val)
 	case "Update", "UpdateFunc", "Delete":
@@ -111,7 +111,7 @@ func applyCrashOp(m *model.DB, o crashOp) string {
 		}
 		delete(mc.Indexes, o.Field)
 		return OK
-	case "Insert":
+	case "Insert", "InsertBig":
 		if mc == nil {
 			return ECollNo
 		}
@@ -217,6 +217,15 @@ func crashHistory(seed uint64) []crashOp {
 	}
 	add(crashOp{Kind: "Insert", Coll: "c1", Docs: docs})
 	nops := r.Range(8, 16)
+	if seed%5 == 0 {
+		// one operation beyond badger's default transaction size (a store may refuse it, but never apply a part of it)
+		big := make([]map[string]any, 12)
+		for i := range big {
+			big[i] = map[string]any{"_id": r.UUID(), "a": int64(i % 9), "blob": strings.Repeat("z", 900<<10)}
+		}
+		add(crashOp{Kind: "InsertBig", Coll: "c1", Docs: big})
+		nops = r.Range(3, 6)
+	}
 	existing := func() string {
 		ns := m.Names()
 		if len(ns) == 0 {
@@ -232,7 +241,7 @@ func crashHistory(seed uint64) []crashOp {
 	}
 	for i := 0; i < nops; i++ {
 		c := existing()
-		switch r.Weighted([]int{4, 2, 5, 3, 14, 10, 4, 6, 8, 6, 5, 3, 3}) {
+		switch r.Weighted([]int{4, 4, 6, 3, 14, 10, 4, 6, 8, 6, 5, 3, 3}) {
 		case 0:
 			add(crashOp{Kind: "CreateCollection", Coll: gen.Pick(r, names)})
 		case 1:
@@ -304,7 +313,7 @@ func execCrashOp(db *clover.DB, o crashOp, dir string) error {
 		return db.CreateIndex(o.Coll, o.Field)
 	case "DropIndex":
 		return db.DropIndex(o.Coll, o.Field)
-	case "Insert":
+	case "Insert", "InsertBig":
 		ds := make([]*document.Document, len(o.Docs))
 		for i, d := range o.Docs {
 			ds[i] = model.NewDoc(d)
@@ -468,9 +477,12 @@ func RunCrash(c *core.Ctx) {
 	seed := r.U64()
 	ops := crashHistory(seed)
 	backend := gen.Pick(r, []string{BBolt, BBolt, BBolt, BadgerDisk})
+	if seed%5 == 0 && r.P(70) {
+		backend = BadgerShip // shipped options: values below 1 MB count towards the transaction size
+	}
 	rawBackend := BBoltRaw // the default opening path clover.Open(dir), no monitor
-	if backend == BadgerDisk {
-		rawBackend = BadgerDisk // same options on every open of one directory
+	if backend != BBolt {
+		rawBackend = backend // same options on every open of one directory
 	}
 	c.Backend = backend
 	self, _ := os.Executable()
@@ -494,6 +506,9 @@ func RunCrash(c *core.Ctx) {
 			h.MS.BeginOp(true)
 			err := Do(func() error { return execCrashOp(h.DB, o, base) })
 			traces[i] = h.MS.EndOp().Trace
+			if o.Kind == "InsertBig" && err != nil {
+				continue // a store may refuse a transaction of that size: then it has no effect
+			}
 			want := applyCrashOp(m, o)
 			if got := Classify(err); got != want {
 				c.Log("%s -> %s", o, got)
@@ -517,12 +532,39 @@ func RunCrash(c *core.Ctx) {
 		killOp, killCall, mode := -1, 0, "none"
 		if nkills < maxKills {
 			killOp = start + r.Intn(min(4, len(ops)-start))
+			// prefer the next operation that commits more than once (if there is one)
+			for j := start; j < len(ops); j++ {
+				commits := 0
+				for _, e := range traces[j] {
+					if e.Kind == mon.KCommit {
+						commits++
+					}
+				}
+				if (commits > 1 && r.P(60)) || (ops[j].Kind == "InsertBig" && r.P(80)) {
+					killOp = j
+					break
+				}
+			}
 			switch r.Intn(10) {
 			case 0, 1, 2:
 				mode = "timed"
 			default:
 				mode = "store-call"
 				killCall = 1 + r.Intn(len(traces[killOp])+1)
+				// an operation whose trace holds several commits is the interesting one: die right after an inner commit
+				var inner []int
+				for i, e := range traces[killOp] {
+					if e.Kind == mon.KCommit && i+2 <= len(traces[killOp]) {
+						inner = append(inner, i+2)
+					}
+				}
+				if len(inner) > 1 && r.P(75) {
+					killCall = inner[r.Intn(len(inner)-1)]
+				} else if ops[killOp].Kind == "InsertBig" && r.P(80) {
+					// late in a very large operation: a store that flushes behind the scenes has done so by now
+					n := len(traces[killOp])
+					killCall = n - r.Intn(max(1, n/4))
+				}
 			}
 		}
 		os.Remove(ackPath)
@@ -573,6 +615,11 @@ func RunCrash(c *core.Ctx) {
 			cls, ok := st.acked[next]
 			if !ok {
 				break
+			}
+			if ops[next].Kind == "InsertBig" && cls != OK {
+				c.Log("%s -> %s (acknowledged, refused by the store)", ops[next], cls)
+				next++
+				continue
 			}
 			want := applyCrashOp(m, ops[next])
 			c.Log("%s -> %s (acknowledged)", ops[next], cls)
@@ -681,6 +728,14 @@ func RunReopen(c *core.Ctx) {
 	os.MkdirAll(tmp, 0755)
 	for i, o := range ops {
 		err := Do(func() error { return execCrashOp(h.DB, o, tmp) })
+		if o.Kind == "InsertBig" && err != nil {
+			c.Log("%s -> %s (refused by the store)", o, Classify(err))
+			if ok, why := auditAgainst(c, h, m); !ok {
+				c.Violate("crash:refused-big-op-left-trace", "%s was refused (%v) but changed the database:\n  %s", o, err, why)
+				return
+			}
+			continue
+		}
 		want := applyCrashOp(m, o)
 		c.Log("%s -> %s", o, Classify(err))
 		if got := Classify(err); got != want {
